@@ -699,6 +699,10 @@ _frame_re = re.compile(r'^File "(?P<filepath>.+)", line (?P<lineno>\d+)'
                        r', in (?P<funcname>.+)$')
 _se_frame_re = re.compile(r'^File "(?P<filepath>.+)", line (?P<lineno>\d+)')
 _underline_re = re.compile(r'^[~^ ]*$')
+# the line the interpreter prints instead of the fourth and further
+# repetitions of one frame (recursion)
+_repeat_re = re.compile(r'^\[Previous line repeated (?P<count>\d+)'
+                        r' more times?\]$')
 
 
 def _indent(line):
@@ -766,6 +770,10 @@ class ParsedException:
             source_line = frame.get('source_line')
             if source_line:
                 lines.append(f'    {source_line}')
+            repeated = frame.get('repeated')
+            if repeated:
+                lines.append('  [Previous line repeated {} more time{}]'
+                             .format(repeated, 's' if repeated > 1 else ''))
         if self.exc_msg:
             lines.append(f'{self.exc_type}: {self.exc_msg}')
         else:
@@ -829,7 +837,8 @@ class ParsedException:
                 if (
                         # a line indented deeper than the frame line is
                         # its source, even if that text reads like a frame
-                        (frame_re.match(next_line_stripped) and
+                        ((frame_re.match(next_line_stripped) or
+                          _repeat_re.match(next_line_stripped)) and
                          _indent(next_line) <= _indent(raw_frame_line)) or
                         # The exception message will not be indented
                         # This check is to avoid overrunning on eval-like
@@ -844,6 +853,14 @@ class ParsedException:
                 if _underline_re.match(tb_lines[line_no + 1]):
                   # To deal with anchors
                   line_no += 1
+            elif (frames and raw_frame_line.startswith(' ') and
+                  _repeat_re.match(frame_line)):
+                # "[Previous line repeated N more times]": not a frame,
+                # the interpreter's summary of a frame shown three times
+                count = _repeat_re.match(frame_line).group('count')
+                frames[-1]['repeated'] = int(count)
+                line_no += 1
+                continue
             else:
                 break
             line_no += 1
